@@ -600,7 +600,9 @@ def unit_bounded_query_sequences(U):
     U.bounded_result("C06.bounded.query_sequences", "a limit / region query returns the statement's set whatever queries came before it", "6 intervals across 128 kb bin boundaries x 3 orders x same / fresh FeatureDB x 3 entry points", cases, fails)
 
 
-UNITS = [("bounded.query_sequences", unit_bounded_query_sequences), ("bounded.deferred", unit_bounded_deferred), ("schema", unit_schema), ("bounded.after_update", unit_bounded_after_update), ("bounded.debug_logging", unit_bounded_logging), ("limit", unit_limit), ("region", unit_region), ("sqlmodel", unit_sqlmodel_validation), ("bounded", unit_bounded), ("bounded.straddle", unit_bounded_straddle)]
+from pyvc.harness import dep_unit as _dep_unit
+
+UNITS = [("dep.stored_bin", _dep_unit("C12", "unit_stored_bin", "C12", "C06.dep", "the representation invariant the region / limit clauses ASSUME of stored rows - bin == bins(start, end) after every statement that writes a features row (the C12 obligations) - discharged in this check as well")), ("bounded.query_sequences", unit_bounded_query_sequences), ("bounded.deferred", unit_bounded_deferred), ("schema", unit_schema), ("bounded.after_update", unit_bounded_after_update), ("bounded.debug_logging", unit_bounded_logging), ("limit", unit_limit), ("region", unit_region), ("sqlmodel", unit_sqlmodel_validation), ("bounded", unit_bounded), ("bounded.straddle", unit_bounded_straddle)]
 
 
 def replay_file(doc):
